@@ -59,6 +59,19 @@ Theorem C02_add_validated_is_shapley : forall n K C rows labels dists ucols null
   == shapley n (v_knn K C rows labels dists ucols nulls) i.
 Proof. exact add_validated_is_shapley. Qed.
 
+(* END TO END for any conjunctive provenance through the model of compile(): for every admissible component structure the
+   loop over the oracle built on the modelled diagram and row locations is the Shapley value *)
+Theorem C02_add_compile_is_shapley : forall n K C rows labels dists ucols nulls comps i,
+  (2 <= n)%nat -> (i < n)%nat -> (1 <= K)%nat ->
+  hints_ok n rows comps = true ->
+  (forall r, (r < length rows)%nat -> (nth r labels 0 < C)%nat) ->
+  (forall ds, In ds dists -> length ds = length rows /\ NoDup (map Qred ds)) ->
+  nth i (shapley_add (map (fun ds => mkProb n rows labels ds (n - 1) K C) dists)
+                     (map (fun p => oracle_of p (compile_add (p_type p) comps) (map (row_locs 0 comps) (p_rows p)))
+                          (map (fun ds => mkProb n rows labels ds (n - 1) K C) dists)) ucols nulls n) 0
+  == shapley n (v_knn K C rows labels dists ucols nulls) i.
+Proof. exact add_compile_is_shapley. Qed.
+
 (* with pairwise distinct distances exactly one row of a K-or-more-element row set has rank K: the rank-based
    definition `nearest` selects exactly the K nearest rows *)
 Theorem C02_rank_count : forall (d : nat -> Q) (P : list nat), NoDup P ->
@@ -84,3 +97,4 @@ Print Assumptions C02_rank_count.
 Print Assumptions C02_add_chain_is_shapley.
 Print Assumptions C02_sorted_definition_agrees.
 Print Assumptions C02_add_validated_is_shapley.
+Print Assumptions C02_add_compile_is_shapley.
